@@ -117,6 +117,9 @@ pub enum Ev {
     Mbtn(usize, bool),
     Wheel(bool),
     Move(u8, u8),
+    /// the host loads a snapshot (an SZX with nothing but an SPCR chunk): held keys, buttons and counters are the
+    /// host's, a snapshot says nothing about them
+    Snap,
 }
 
 impl Ev {
@@ -130,6 +133,14 @@ impl Ev {
             Ev::Mbtn(i, p) => format!("ev mbtn {:x} {}", i, b(p)),
             Ev::Wheel(u) => format!("ev wheel {}", b(u)),
             Ev::Move(dx, dy) => format!("ev move {:02x} {:02x}", dx, dy),
+            // for the model a snapshot load is no input event at all: a mouse motion of (0,0)
+            Ev::Snap => "ev move 00 00".to_string(),
+        }
+    }
+    fn text(&self) -> String {
+        match *self {
+            Ev::Snap => "ev snap".to_string(),
+            _ => self.line(),
         }
     }
     fn parse(s: &str) -> Option<Ev> {
@@ -144,6 +155,7 @@ impl Ev {
             ["ev", "mbtn", i, q] => Some(Ev::Mbtn(n(i)?, p(q)?)),
             ["ev", "wheel", u] => Some(Ev::Wheel(p(u)?)),
             ["ev", "move", dx, dy] => Some(Ev::Move(n(dx)? as u8, n(dy)? as u8)),
+            ["ev", "snap"] => Some(Ev::Snap),
             _ => None,
         }
     }
@@ -157,6 +169,7 @@ impl Ev {
             Ev::Mbtn(i, _) => format!("mbtn.{}", MBTN_NAMES[i]),
             Ev::Wheel(_) => "wheel".to_string(),
             Ev::Move(_, _) => "move".to_string(),
+            Ev::Snap => "snapshot-load".to_string(),
         }
     }
     fn source(&self) -> &'static str {
@@ -168,6 +181,7 @@ impl Ev {
             Ev::Mbtn(..) => "mouse-button",
             Ev::Wheel(..) => "wheel",
             Ev::Move(..) => "move",
+            Ev::Snap => "snapshot-load",
         }
     }
     fn apply(&self, e: &mut Emu) {
@@ -183,6 +197,15 @@ impl Ev {
                 KempstonMouseWheelDirection::Down
             }),
             Ev::Move(dx, dy) => e.send_mouse_pos_diff(dx as i8, dy as i8),
+            Ev::Snap => {
+                let m128 = e.verif_paging().1;
+                let mut f = b"ZXST".to_vec();
+                f.extend_from_slice(&[1, 4, if m128 { 2 } else { 1 }, 0]);
+                f.extend_from_slice(b"SPCR");
+                f.extend_from_slice(&8u32.to_le_bytes());
+                f.extend_from_slice(&[0, 0, 0, 0, 0, 0, 0, 0]);
+                let _ = e.load_snapshot(rustzx_core::host::Snapshot::Szx(VAsset::new(f)));
+            }
         }
     }
 }
@@ -426,7 +449,7 @@ fn case_text(m128: bool, hist: &[Ev]) -> String {
     let mut s = format!("m128={}", if m128 { 1 } else { 0 });
     for e in hist {
         s.push_str(" ; ");
-        s.push_str(&e.line());
+        s.push_str(&e.text());
     }
     s
 }
@@ -567,6 +590,7 @@ fn random_event(rng: &mut Rng, focus: &[Ev]) -> Ev {
         10..=13 => Ev::Sinc(rng.below(2) as usize, rng.below(5) as usize, rng.bool()),
         14..=15 => Ev::Kemp(rng.below(8) as usize, rng.bool()),
         16 => Ev::Mbtn(rng.below(4) as usize, rng.bool()),
+        17 if rng.chance(1, 2) => Ev::Snap,
         17 => Ev::Wheel(rng.bool()),
         _ => {
             let pick = |r: &mut Rng| match r.below(6) {
@@ -585,7 +609,7 @@ pub fn run(o: &Opts) -> Report {
     let mut rep = Report::new("C17");
     rep.rule = "every single control (40 keys, 7 compound, 2x5 Sinclair, 8 Kempston, 4 mouse buttons) pressed \
 and released alone, read with all 256 half-row selectors (exhaustive part), then seeded random event histories \
-(<=60 events, biased to a small working set so that several sources hold the same matrix position) with reads \
+(<=60 events, biased to a small working set so that several sources hold the same matrix position; now and then the host loads a snapshot in between) with reads \
 after every event; non-trivial/distinct = distinct (port, selector, value) observations in which at least one \
 key bit reads 0, plus distinct joystick/mouse port values"
         .into();
